@@ -104,6 +104,22 @@ Section Term.
     | [] => Ok []
     | c :: r => do x <- build f p c; do xs <- beach f p r; Ok (match x with Some v => v :: xs | None => xs end)
     end.
+  Fixpoint pick (f : nat) (p : list tname) (ns : list tname) : res (option ex) :=
+    match ns with
+    | [] => Ok None
+    | t :: r =>
+      if Nat.ltb 1 (count t p) then pick f p r
+      else match lookup t roott with None => Err 1302 | Some (Entry rt _) => build f (t :: p) rt end
+    end.
+  Lemma pick_fix f p : forall l,
+    (fix pick0 (ns : list tname) : res (option ex) :=
+       match ns with
+       | [] => Ok None
+       | t :: r =>
+         if Nat.ltb 1 (count t p) then pick0 r
+         else match lookup t roott with None => Err 1302 | Some (Entry rt _) => Recursion.build roott f (t :: p) rt end
+       end) l = pick f p l.
+  Proof. induction l as [|t r IH]; [reflexivity|]. cbn [pick]. rewrite <- IH. reflexivity. Qed.
   Lemma build_unfold f p n :
     build (S f) p n =
     match n with
@@ -113,12 +129,12 @@ Section Term.
     | NRef _ _ names =>
       match names with
       | [] => Err 1302
-      | t :: _ => if Nat.ltb 1 (count t p) then Ok None
-                  else match lookup t roott with None => Err 1302 | Some (Entry r _) => build f (t :: p) r end
+      | _ => pick f p names
       end
     end.
   Proof.
     destruct n as [o u|o u items|o u props|o u names]; try reflexivity; cbn [Recursion.build].
+    3: { destruct names as [|t0 r0]; [reflexivity|]. exact (pick_fix f p (t0 :: r0)). }
     - assert (E : forall l, (fix each (l : list node) : res (list ex) :=
                     match l with
                     | [] => Ok []
@@ -158,7 +174,8 @@ Section Term.
       + assert (H : not_panic (beach f p props)).
         { apply beach_ok. intros c Hc. apply IH. pose proof (sz_child c props Hc). cbn [sz] in Hb. lia. }
         destruct (beach f p props); cbn [bind]; auto.
-      + destruct names as [|t r]; [exact I|]. destruct (Nat.ltb_spec 1 (count t p)); [exact I|].
+      + destruct names as [|t0 r0]; [exact I|]. generalize (t0 :: r0). intros l.
+        induction l as [|t r IHl]; [exact I|]. cbn [pick]. destruct (Nat.ltb_spec 1 (count t p)); [exact IHl|].
         destruct (lookup t roott) as [[rt own]|] eqn:El; [|exact I].
         destruct (lookup_in t _ El) as [Hin Hs]. pose proof (room_enter t p Hin ltac:(lia)) as Hr.
         apply IH. cbn [sz] in Hb. nia.
